@@ -4,6 +4,8 @@ import (
 	"encoding/json"
 	"fmt"
 	"math/rand"
+	"os"
+	"path/filepath"
 	"sort"
 	"strings"
 )
@@ -47,6 +49,13 @@ func composeReplay(e *env) error {
 		}
 		w := newWorld(rng, maxID, idx%2 == 0)
 		w.ua = 1
+		if idx%3 == 1 {
+			// category paths, one name a path-prefix of another (nothing here depends on the order of names)
+			paths := []string{"", "k/a", "k/a/b", "k", "m/x", "k/a/b/c", "m", "z"}
+			for i := 1; i <= maxID && i < len(paths); i++ {
+				w.names[i] = paths[i]
+			}
+		}
 		cc := &concretiser{rng: rng}
 		blocks := append([]absDay{}, c.Log...)
 		if len(c.Log) == 2 {
@@ -169,6 +178,25 @@ func composeReplay(e *env) error {
 				}
 				return m, err
 			})
+			// the collapsed renderings join chains differently in the whole and in the parts (that is layout); what must
+			// add up in every mode is the top level (everything that was logged) and the grand total
+			for _, bargs := range [][]string{{"bal", "-c"}, {"bal", "--collapse-last"}, {"bal", "-c", "-s", el}, {"bal", "--collapse-last", "-s", el}} {
+				sumRows(bargs, func(o string) (map[string][3]int64, error) {
+					rows, tot, err := parseBalance(o)
+					m := map[string][3]int64{}
+					var top int64
+					for _, r := range rows {
+						if r.Level == 0 {
+							top += r.Val
+						}
+					}
+					m["\x00top level"] = [3]int64{top, 0, 0}
+					if tot != nil {
+						m["\x00grand total"] = [3]int64{tot.Val, 0, 0}
+					}
+					return m, err
+				})
+			}
 			for _, bargs := range [][]string{{"bal"}, {"bal", "-s", el}} {
 				sumRows(bargs, func(o string) (map[string][3]int64, error) {
 					rows, tot, err := parseBalance(o)
@@ -192,6 +220,7 @@ func composeReplay(e *env) error {
 				})
 			}
 		}
+		_ = 0
 		if idx%4000 == 2 {
 			keys := []string{}
 			for i := range texts {
@@ -202,4 +231,93 @@ func composeReplay(e *env) error {
 		}
 		return nil
 	})
+}
+
+func init() {
+	modes["compose-binary"] = composeBinary
+}
+
+// composeBinary (C12 across processes): the per-day reports of a concatenated log, produced by one process of the real
+// binary, equal the concatenation of the reports that separate processes produce for the parts.  State that a process
+// keeps from one day to the next (a cache of formatted numbers, an accumulator that is not reset) cannot hide here the
+// way it can when whole and parts are produced by the same process.  Inputs: days with negative zeros (a negative
+// quantity of a food with a zero amount), sub-cent amounts, repeated foods and repeated dates.
+func composeBinary(e *env) error {
+	if os.Getenv("VERIF_BIN") == "" {
+		return fmt.Errorf("VERIF_BIN not set")
+	}
+	scratch := os.Getenv("VERIF_SCRATCH")
+	book := "z/water:\n  kcal: 0\n  fat: 1\nbread:\n  kcal: 250\n  fat: 1.115\n  salt: -0.004\nempty:\n"
+	blocks := []string{
+		"2021/01/01:\n  z/water: -1\n",
+		"2021/01/02:\n  z/water: 1\n  bread: 0\n",
+		"2021/01/02:\n  bread: -0\n  kcal: 0\n  empty: 2\n",
+		"2021/01/03:\n  bread: 0.3\n  bread: -0.1\n  bread: -0.2\n  unknown food: -0.004\n",
+		"2021/01/04:\n  bread: 2\n  z/water: 3\n  kcal: -500\n",
+		"2021/01/05:\n",
+	}
+	shapes := [][]string{
+		{"--no-color", "reg"}, {"reg"}, {"--no-color", "reg", "--internal-template-name", "left-aligned"}, {"--no-color", "reg", "--use-old-reg-reporter"},
+		{"--no-color", "reg", "--totals-only"}, {"--no-color", "reg", "--no-totals"}, {"csv", "log"}, {"print"}, {"reg", "-f", "."}, {"reg", "-s", "kcal"}, {"reg", "-s", "salt", "--csv"},
+	}
+	run := func(dir, log string, args []string) (string, bool) {
+		writeFile(filepath.Join(dir, "food.yaml"), book)
+		writeFile(filepath.Join(dir, "log.yaml"), log)
+		r := runBinary(dir, nil, nil, args...)
+		e.sum.Runs++
+		if r.Exit != 0 {
+			e.mismatch("report-fails", "cmd/hranoprovod-cli", fmt.Sprintf("binary %v exits %d on a well-formed log: %s", args, r.Exit, firstLine(r.Stderr)), map[string]interface{}{"log": log, "book": book})
+			return "", false
+		}
+		return r.Stdout, true
+	}
+	dir := filepath.Join(scratch, "compose-bin")
+	os.MkdirAll(dir, 0o755)
+	orders := [][]int{{0, 1, 2, 3, 4, 5}, {1, 0}, {3, 0, 2}, {4, 3, 2, 1, 0}, {2, 2, 0, 1}}
+	dates := map[string]bool{"2021/01/01": true, "2021/01/02": true, "2021/01/03": true, "2021/01/04": true, "2021/01/05": true}
+	for _, ord := range orders {
+		// C15 across processes: default = per day the --no-totals lines followed by the --totals-only lines
+		var wl strings.Builder
+		for _, b := range ord {
+			wl.WriteString(blocks[b])
+		}
+		for _, tpl := range [][]string{nil, {"--internal-template-name", "left-aligned"}, {"--use-old-reg-reporter"}} {
+			base := append([]string{"--no-color", "reg"}, tpl...)
+			both, k1 := run(dir, wl.String(), base)
+			nt, k2 := run(dir, wl.String(), append(append([]string{}, base...), "--no-totals"))
+			to, k3 := run(dir, wl.String(), append(append([]string{}, base...), "--totals-only"))
+			if !(k1 && k2 && k3) {
+				continue
+			}
+			cb, cn, ct := dayChunks(both, dates), dayChunks(nt, dates), dayChunks(to, dates)
+			okI := len(cb) == len(cn) && len(cb) == len(ct)
+			for i := 0; okI && i < len(cb); i++ {
+				nl := strings.Index(cn[i], "\n") + 1
+				tl := strings.Index(ct[i], "\n") + 1
+				okI = nl > 0 && tl > 0 && cn[i][:nl] == ct[i][:tl] && cb[i] == cn[i]+ct[i][tl:]
+			}
+			if !okI {
+				e.mismatch("default-not-interleave-of-no-totals-and-totals-only", "cmd/hranoprovod-cli/internal/reporter", fmt.Sprintf("binary %v (three processes): default %q, --no-totals %q, --totals-only %q", base, both, nt, to), map[string]interface{}{"log": wl.String(), "book": book})
+			}
+		}
+		for _, args := range shapes {
+			e.sum.Cases++
+			e.sum.Nontrivial++
+			var whole, parts strings.Builder
+			ok := true
+			for _, b := range ord {
+				whole.WriteString(blocks[b])
+				o, k := run(dir, blocks[b], args)
+				ok = ok && k
+				parts.WriteString(o)
+			}
+			ow, k := run(dir, whole.String(), args)
+			if ok && k && ow != parts.String() {
+				e.mismatch("per-day-report-not-concatenation", "cmd/hranoprovod-cli/internal/utils/hranoprovod.go",
+					fmt.Sprintf("binary %v: one process prints %q for the concatenated log; separate processes print %q for its blocks %v", args, ow, parts.String(), ord),
+					map[string]interface{}{"log": whole.String(), "book": book, "order": ord})
+			}
+		}
+	}
+	return nil
 }
